@@ -366,8 +366,12 @@ func CheckC16(tier string) int {
 	m3 := core2("core2-heights-around-47", props, "")
 	m3.WorldOpts = world.WorldOpts{InitialHeights: map[string]int64{B: 40, A: 296}}
 	m3.StateCheck = stateCheck
-	models := []*PktModel{m1, m2, m3}
-	depths := []int{depth, depth, depth + 1}
+	// destinations that are no chain at all (a two-character name, a name containing the path separator), reached
+	// through a relay chain: any user can put such a packet on record with MsgNftTransfer
+	m4 := nft3("nft3-odd-destination-names", props, NftScenario{MaxUserTx: 2, Receivers: []int{1}, OddDests: []string{"c7", "x/y"}}, "")
+	m4.StateCheck = stateCheck
+	models := []*PktModel{m1, m2, m3, m4}
+	depths := []int{depth, depth, depth + 1, depth}
 	var scen []map[string]any
 	states, trans := 0, 0
 	exhaustive := true
